@@ -21,7 +21,8 @@ Record hist_params := mkHP {
   hp_pow : pow_params;
   hp_gcd : gcd_params;
   hp_roots : roots_params;
-  hp_radix : radix_params
+  hp_radix : radix_params;
+  hp_iter : iter_params
 }.
 (** the initial guess of the Newton iterations: the no_std one, 2^max_bits (the std build starts from
     an f64 estimate instead; the result does not depend on the guess: C11_guess_independent) *)
@@ -323,14 +324,14 @@ Definition export_of (P : hist_params) (e : export) (s : obj) : outcome (list Z)
   match s, e with
   | OU d, EText r => u_to_str_radix (hp_radix P) d r
   | OI x, EText r => i_to_str_radix (hp_radix P) x r
-  | OU d, EU32 => uto_u32_digits d
+  | OU d, EU32 => uto_u32_digits (hp_iter P) d
   | OU d, EU64 => Ret (uto_u64_digits d)
   | OU d, EBytesLe => uto_bytes_le d
   | OU d, EBytesBe => uto_bytes_be d
   | OU d, EBits => Ret [ubits d]
   | OU d, ECountOnes => Ret [ucount_ones d]
   | OU d, ETrailingZeros => Ret (match utrailing_zeros d with Some k => [k] | None => [] end)
-  | OI x, EU32 => do r <- ito_u32_digits x; Ret (sign_z (fst r) :: snd r)
+  | OI x, EU32 => do r <- ito_u32_digits (hp_iter P) x; Ret (sign_z (fst r) :: snd r)
   | OI x, EU64 => let r := ito_u64_digits x in Ret (sign_z (fst r) :: snd r)
   | OI x, EBytesLe => do r <- ito_bytes_le x; Ret (sign_z (fst r) :: snd r)
   | OI x, EBytesBe => do r <- ito_bytes_be x; Ret (sign_z (fst r) :: snd r)
